@@ -373,6 +373,23 @@ def c08d(chk):
                     coll = any(callee_is(t2["callee"], N.COLLECT) for _, t2 in c.calls())
                     ok = whole and coll
                     why = "into_iter over the whole vector=%s, collected=%s" % (whole, coll)
+        if not ok:
+            # the same written as a loop: `for g in genotypes { out.push(genotype::Result::from(g)) }` over the whole vector, never left early
+            import iters as IT_
+            for it in IT_.iterations(prog, f):
+                if it.kind != "loop" or it.parent is not f:
+                    continue
+                names = [n for n in IT_.chain_names(it.chain()) if n not in ("into_iter", "iter", "deref", "as_slice")]
+                froms = [(b, t) for b, t in it.calls("core::convert::From::from") if GENO_RESULT in " ".join(t["callee"].get("args", []) + [t.get("dest_ty") or ""])]
+                if names or len(froms) != 1:
+                    continue
+                fb, ft = froms[0]
+                whole_elem = it.elem_path(ft["args"][0]) == ()
+                dest = an.call_dest_local(ft)
+                pushes = [(b, t) for b, t in it.calls() if callee_name(t["callee"]).split("::")[-1] == "push" and len(t["args"]) == 2 and op_local(t["args"][1]) is not None and f.copy_root(op_local(t["args"][1])) == dest]
+                if whole_elem and len(pushes) == 1 and it.runs_for_every_element() and not [sw for sw in it.switches()]:
+                    ok = True
+                    why = "%s: every element converted with From::from and pushed, no early exit" % it.describe()
         chk.ob("C08.d", "%s::Reader::read_genotypes/maps-through-From" % what, ok, f.loc(), "every genotype of the record goes through genotype::Result::from (%s)" % why)
     # trait impls of genotype::Reader: exactly these two
     impls = [i for i in prog.impls if i.get("trait") and i["trait"]["path"] == "sfs_core::input::genotype::reader::Reader"]
